@@ -212,8 +212,11 @@ func (g *GuardAlloc) Free(p unsafe.Pointer) {
 	if !ok {
 		if fb, was := g.freed[addr]; was {
 			g.fail("C04", "double-free/"+fb.class, "block %#x (%s, %d bytes, allocated at event %d, first freed at event %d) freed again", addr, fb.class, fb.size, fb.seq, fb.freedS)
+			// also C07: every block is returned exactly once
+			g.fail("C07", "returned-twice/"+fb.class, "%s block of %d bytes (allocated at event %d, first freed at event %d) returned to the allocator again", fb.class, fb.size, fb.seq, fb.freedS)
 		} else {
 			g.fail("C04", "free-unknown", "free of pointer %#x that was never allocated", addr)
+			g.fail("C07", "returned-never-allocated", "a pointer that was never handed out was returned to the allocator")
 		}
 		return
 	}
